@@ -26,7 +26,7 @@ class Query:
 
     def __init__(self, name, harness, units=(), defs=None, unwind=13, unwindset=None, stubs=("mem",),
                  timeout=300, mem_gb=12, checks="mem", ndebug=True, kf=(), expect_fail=(), note="",
-                 object_bits=12, extra=(), native_units=None, weight=1):
+                 object_bits=12, extra=(), native_units=None, weight=1, replace_calls=None, unwind_fn=None):
         self.name = name
         self.harness = harness                    # path relative to /verif/harness
         self.units = list(units)                  # file names under /repo/src
@@ -45,6 +45,11 @@ class Query:
         self.extra = list(extra)
         self.native_units = native_units
         self.weight = weight
+        self.unwind_fn = dict(unwind_fn or {})    # {function name or prefix*: bound} resolved to loop ids via --show-loops
+        self._resolved = False
+        # optional modular verification: {callee: contract_fn}; the sources are compiled with goto-cc, calls to callee are
+        # redirected with goto-instrument --replace-calls, and cbmc runs on the resulting goto binary with the same flags
+        self.replace_calls = dict(replace_calls or {})
 
     def clone(self, **kw):
         q = Query(self.name, self.harness)
@@ -69,9 +74,23 @@ class Query:
         fs += [os.path.join(SRC, u) for u in self.units]
         return fs
 
-    def cbmc_cmd(self, extra=()):
-        cmd = ["cbmc"] + self.dflags() + self.files() + BASE_FLAGS + ["--object-bits", str(self.object_bits),
-                                                                      "--unwind", str(self.unwind)]
+    def resolve_loops(self):
+        """expand unwind_fn into unwindset entries using cbmc --show-loops (cheap: front end only)"""
+        if self._resolved or not self.unwind_fn:
+            return
+        self._resolved = True
+        cmd = ["cbmc"] + self.dflags() + self.files() + ["--show-loops"]
+        rc, out, err, _, to = run_proc(cmd, 120, 8)
+        for m in re.finditer(r"^Loop ([A-Za-z_][A-Za-z0-9_$]*)\.(\d+):", out, re.M):
+            fn, idx = m.group(1), m.group(2)
+            for key, k in self.unwind_fn.items():
+                if fn == key or (key.endswith("*") and fn.startswith(key[:-1])):
+                    self.unwindset.setdefault("%s.%s" % (fn, idx), k)
+
+    def cbmc_cmd(self, extra=(), gb=None):
+        self.resolve_loops()
+        cmd = ["cbmc"] + (self.dflags() + self.files() if gb is None else [gb]) + BASE_FLAGS + [
+            "--object-bits", str(self.object_bits), "--unwind", str(self.unwind)]
         if self.unwindset:
             cmd += ["--unwindset", ",".join("%s:%d" % kv for kv in self.unwindset.items())]
         if self.checks == "none":
@@ -108,6 +127,23 @@ def run_proc(cmd, timeout, mem_gb=12, env=None, cwd=None):
         to = True
     ru = resource.getrusage(resource.RUSAGE_CHILDREN)
     return p.returncode, out.decode("utf-8", "replace"), err.decode("utf-8", "replace"), time.time() - t0, to
+
+
+def build_modular(q, outdir):
+    """goto-cc all files of q, then goto-instrument --replace-calls callee:contract for q.replace_calls.
+    Returns (goto binary path or None, list of command strings, error text)."""
+    a = os.path.join(outdir, "a.gb")
+    cmds = [["goto-cc"] + q.dflags() + q.files() + ["-o", a]]
+    cur = a
+    for i, (callee, contract) in enumerate(sorted(q.replace_calls.items())):
+        nxt = os.path.join(outdir, "r%d.gb" % i)
+        cmds.append(["goto-instrument", "--replace-calls", "%s:%s" % (callee, contract), cur, nxt])
+        cur = nxt
+    for c in cmds:
+        rc, out, err, _, to = run_proc(c, 180, 8)
+        if to or rc != 0:
+            return None, cmds, "%s failed rc=%s %s" % (c[0], rc, (err or out)[-600:])
+    return cur, cmds, ""
 
 
 def classify(prop_id, desc):
@@ -336,8 +372,26 @@ def run_query(q, replay_dir, prop_id):
     r = {"name": q.name, "harness": q.harness, "defs": q.defs, "units": q.units, "verdict": None,
          "failed": [], "n_props": 0, "n_ok": 0, "reach": False, "stats": {}, "wall_s": 0, "cmd": None,
          "replays": [], "note": q.note}
-    cmd = q.cbmc_cmd()
-    r["cmd"] = " ".join(cmd)
+    if q.replace_calls:
+        gbdir = tempfile.mkdtemp(prefix="vp-gb-")
+        try:
+            return _run_query(q, replay_dir, prop_id, r, gbdir)
+        finally:
+            shutil.rmtree(gbdir, ignore_errors=True)
+    return _run_query(q, replay_dir, prop_id, r, None)
+
+
+def _run_query(q, replay_dir, prop_id, r, gbdir):
+    gb = None
+    pre = ""
+    if gbdir is not None:
+        gb, cmds, gerr = build_modular(q, gbdir)
+        pre = " && ".join(" ".join(c) for c in cmds) + " && "
+        if gb is None:
+            r["verdict"] = "inconclusive"; r["why"] = "modular build: " + gerr
+            return r
+    cmd = q.cbmc_cmd(gb=gb)
+    r["cmd"] = pre + " ".join(cmd)
     rc, out, err, wall, to = run_proc(cmd, q.timeout, q.mem_gb)
     r["wall_s"] = round(wall, 2)
     if to:
@@ -403,7 +457,7 @@ def run_query(q, replay_dir, prop_id):
         exe_san = exe_rel = None
         confirmed = False
         for p in chosen:
-            rc2, out2, err2, wall2, to2 = run_proc(q.cbmc_cmd(extra=["--trace", "--property", p["id"]]), q.timeout * 2, q.mem_gb)
+            rc2, out2, err2, wall2, to2 = run_proc(q.cbmc_cmd(extra=["--trace", "--property", p["id"]], gb=gb), q.timeout * 2, q.mem_gb)
             r["wall_s"] = round(r["wall_s"] + wall2, 2)
             rep = {"property": p["id"], "desc": p["desc"], "class": p["class"]}
             if to2:
